@@ -18,7 +18,9 @@
 (* behaves in one of four ways towards each of the five state containers   *)
 (* (`beh`, chosen in Init), and the programme is either constructed with a *)
 (* starting state or obtains it from its InitializationOperator            *)
-(* (`preinit`).  The data part is an abstract heap: per container the edit *)
+(* (`preinit`); the constant EMPTY says which of the five start containers *)
+(* are empty dicts (initial-state alphabet).                                *)
+(* The data part is an abstract heap: per container the edit               *)
 (* history of the working copy (dict level `outer`, inner-object level     *)
 (* `inner`), whether the working copy's inner object *is* the stored start *)
 (* container's inner object (`alias`), and the edit history of the stored  *)
@@ -47,9 +49,13 @@ EXTENDS Naturals, Sequences, FiniteSets
 CONSTANTS NREP,      \* number of replicates            (Nat)
           NGEN,      \* generations per replicate       (Nat)
           LOGINIT,   \* log the initial evaluation?     (BOOLEAN)
-          PSELBEH    \* behaviours allowed for the parent-selection operator
+          PSELBEH,   \* behaviours allowed for the parent-selection operator
                      \* (a subset of Behs; only used to split one constant
                      \*  assignment over several TLC runs)
+          EMPTY      \* initial state: the start containers that are EMPTY dicts
+                     \* (a subset of Cont).  An empty dict is a valid, given start
+                     \* container: it has no inner object that could be shared,
+                     \* and it does not make the programme "uninitialised"
 
 Ops  == {"psel", "mate", "eval", "ssel"}
 Behs == {"pure", "inplace", "alias", "mixed"}
@@ -61,6 +67,7 @@ MixedMap == [genome |-> "pure", geno |-> "inplace", pheno |-> "alias",
 
 ASSUME /\ NREP \in Nat /\ NGEN \in Nat /\ LOGINIT \in BOOLEAN
        /\ PSELBEH \subseteq Behs /\ PSELBEH # {}
+       /\ EMPTY \subseteq {"genome", "geno", "pheno", "bval", "gmod"}
        /\ DOMAIN MixedMap = Cont
 
 VARIABLES beh,       \* [Ops -> Behs]   environment: behaviour of each operator
@@ -113,7 +120,7 @@ Call(op) ==
                    [] B(op, c) = "inplace" -> [alias |-> work[c].alias,
                                                outer |-> Append(work[c].outer, Tok(op)),
                                                inner |-> Append(work[c].inner, Tok(op))]
-                   [] B(op, c) = "alias"   -> [alias |-> TRUE,
+                   [] B(op, c) = "alias"   -> [alias |-> c \notin EMPTY,
                                                outer |-> <<>>,
                                                inner |-> start[c]]]
     /\ start' = [c \in Cont |-> IF B(op, c) = "inplace" /\ work[c].alias
@@ -286,6 +293,12 @@ StartCleanForHonestEnv ==
 
 \* nothing is called before the programme has a start state
 NothingBeforeInit == ~inited => pc = "Idle"
+
+\* a programme constructed with a start state (whatever it contains) never calls its
+\* InitializationOperator; an empty start container has nothing to share and never changes
+GivenStateIsKept ==
+    /\ preinit => pc # "Initialize" /\ inited
+    /\ \A c \in EMPTY : start[c] = <<>> /\ ~work[c].alias
 
 \* action-level properties: environment fixed; t_cur only moves by +1 or back to 0;
 \* rep only moves by +1 and only together with a reset
